@@ -1,7 +1,7 @@
 (** [run_line]: one case line in, one observation line out (model side of the
     correspondence check). *)
 From Coq Require Import String.
-From JP Require Import Base F64 Value Sig Slice JsonRead JsonPrint Functions Interp Lexer Parser History Serde Cli Wire Spec.SliceSpec Spec.Semantics Spec.SigSpec Render.
+From JP Require Import Base F64 Value Sig Slice JsonRead JsonPrint Functions Interp Lexer Parser History Serde Decode Cli Wire Spec.SliceSpec Spec.Semantics Spec.SigSpec Render.
 
 Definition K_slice := Eval compute in s2l "slice".
 Definition K_index := Eval compute in s2l "index".
@@ -505,6 +505,82 @@ Definition run_ser (ts : list tok) : list tok :=
   | _ => bad
   end.
 
+(* ---------- C14: decoding into typed values ---------- *)
+Definition K_dex := Eval compute in s2l "dex".
+
+Fixpoint pr_sval (v : sval) : list tok :=
+  let lst := fix go (l : list sval) : list tok := match l with [] => [[93]] | x :: l' => pr_sval x ++ go l' end in
+  let flds := fix go (l : list (str * sval)) : list tok := match l with [] => [[125]] | (k, x) :: l' => print_str k :: pr_sval x ++ go l' end in
+  match v with
+  | SBool true => [[66]; [116]]
+  | SBool false => [[66]; [102]]
+  | SInt z => [[73]; print_int z]
+  | SF32 f => [s2l "F32"; print_hex16 (bits_of_f f)]
+  | SF64 f => [[70]; print_hex16 (bits_of_f f)]
+  | SChar c => [[67]; print_nat c]
+  | SStr s => [[83]; print_str s]
+  | SBytes l => [89] :: [91] :: map print_nat l ++ [[93]]
+  | SNone => [s2l "None"]
+  | SSome x => s2l "Some" :: pr_sval x
+  | SUnit => [s2l "Unit"]
+  | SUnitStruct => [s2l "UStruct"]
+  | SUnitVariant n => [s2l "UVar"; print_str n]
+  | SNewtypeStruct x => s2l "NStruct" :: pr_sval x
+  | SNewtypeVariant n x => s2l "NVar" :: print_str n :: pr_sval x
+  | SSeq l => s2l "Seq" :: [91] :: lst l
+  | STuple l => s2l "Tup" :: [91] :: lst l
+  | STupleStruct l => s2l "TStruct" :: [91] :: lst l
+  | STupleVariant n l => s2l "TVar" :: print_str n :: [91] :: lst l
+  | SMap kvs => s2l "Map" :: [123] ::
+      (fix go (l : list (sval * sval)) : list tok := match l with [] => [[125]] | (k, x) :: l' => pr_sval k ++ pr_sval x ++ go l' end) kvs
+  | SStruct fs => s2l "Struct" :: [123] :: flds fs
+  | SStructVariant n fs => s2l "SVar" :: print_str n :: [123] :: flds fs
+  end.
+
+(** the harness's target types (harness/src/extra.rs) *)
+Definition n_ (s : string) : str := s2l s.
+Definition t_pt := TStruct [(n_ "x", i32); (n_ "y", TOption TString)].
+Definition t_wrap := TNewtype u8.
+Definition t_en := TEnum [(n_ "A", TUnit); (n_ "B", TNewtype u32); (n_ "C", TTupleStruct [i8; TBool]);
+                          (n_ "D", TStruct [(n_ "p", TF64); (n_ "q", TSeq u8)])].
+Definition t_en2 := TEnum [(n_ "At", TNewtype (TOption i32)); (n_ "Mark", TNewtype TUnit); (n_ "U", TNewtype TUnitStruct);
+                           (n_ "W", TNewtype t_wrap); (n_ "V", TNewtype (TSeq u8)); (n_ "N", TNewtype (TOption (TOption TBool)));
+                           (n_ "E", TNewtype t_en); (n_ "S", TStruct []); (n_ "T", TTupleStruct [])].
+Definition k_userid := KNewtype KString.
+Definition k_color := KEnum [n_ "Red"; n_ "Green"].
+Definition t_nest := TStruct [(n_ "e", t_en); (n_ "l", TSeq t_pt); (n_ "m", TMap KString (TOption t_en));
+                              (n_ "t", TTuple [u64; i64]); (n_ "w", t_wrap)].
+
+Definition dex_types : list (str * ty) := Eval compute in
+  [(n_ "bool", TBool); (n_ "i8", i8); (n_ "i16", i16); (n_ "i32", i32); (n_ "i64", i64);
+   (n_ "u8", u8); (n_ "u16", u16); (n_ "u32", u32); (n_ "u64", u64); (n_ "f64", TF64);
+   (n_ "char", TChar); (n_ "string", TString); (n_ "unit", TUnit);
+   (n_ "opt_i32", TOption i32); (n_ "opt_opt", TOption (TOption TBool));
+   (n_ "vec_u64", TSeq u64); (n_ "vec_vec", TSeq (TSeq i8));
+   (n_ "tup2", TTuple [i32; i32]); (n_ "tup3", TTuple [u8; TString; TOption TBool]); (n_ "arr2", TTuple [i32; i32]);
+   (n_ "map_u32", TMap KString u32); (n_ "map_char", TMap KChar i64);
+   (n_ "pt", t_pt); (n_ "wrap", t_wrap); (n_ "pair", TTupleStruct [i16; TString]); (n_ "marker", TUnitStruct);
+   (n_ "en", t_en); (n_ "nest", t_nest);
+   (n_ "map_nt", TMap k_userid u32); (n_ "map_nt_nest", TMap KString (TMap k_userid (TSeq TString)));
+   (n_ "map_enumkey", TMap k_color i8); (n_ "map_i32key", TMap (KInt (-2147483648) 2147483647) TBool);
+   (n_ "map_u64key", TMap (KInt 0 18446744073709551615) (TOption u8)); (n_ "map_boolkey", TMap KBool u8);
+   (n_ "en2", t_en2); (n_ "opt_en", TOption t_en); (n_ "vec_en2", TSeq t_en2); (n_ "map_en2", TMap KString t_en2);
+   (n_ "value", TValue)].
+
+(** dex <type-id> <value> : decoded by the library | decoded by serde_json (specified to be the same) *)
+Definition run_dex (ts : list tok) : list tok :=
+  match ts with
+  | tn :: r =>
+      match obj_get dex_types tn, rd_value (S (length r)) r with
+      | Some t, Some (v, []) =>
+          if value_has_expref v then [K_UNMODELLED]
+          else let o := match de t v with Some x => K_OK :: pr_sval x | None => [K_ERR] end in o ++ [124] :: o
+      | None, Some _ => [K_UNMODELLED]
+      | _, _ => bad
+      end
+  | [] => bad
+  end.
+
 Definition K_conv_err := Eval compute in s2l "conv".
 Definition rd_input (ts : list tok) : option input :=
   match ts with
@@ -588,6 +664,7 @@ Definition run_tokens (ts : list tok) : list tok :=
       else if str_eqb k K_threads then run_threads r
       else if str_eqb k K_ser then run_ser r
       else if str_eqb k K_de then [K_UNMODELLED]
+      else if str_eqb k K_dex then run_dex r
       else if str_eqb k K_serx then [K_UNMODELLED]
       else if str_eqb k K_conv then run_conv false r
       else if str_eqb k K_convspec then run_conv true r
